@@ -78,7 +78,7 @@ func runC11(p *Prog, l *Ledger) {
 	l.Rule("O5", "the line is made of the callers still waiting (decided by the C12/O2 rule on the same tree): a caller that leaves Acquire has taken its own element out exactly once, so nobody who has gone keeps a place ahead of those still waiting")
 	importObligations(p, l, "C12", "O5", func(o *Obligation) bool { return o.Rule == "O2" })
 	l.Rule("O6", "the freed capacity goes to the selected waiter (decided by the C10/O3 and O5 rules on the same tree): every completion reaches the hand-off after the delegate has released, and the hand-off is one critical section with arrivals - otherwise the next arrival takes the capacity ahead of everybody queued")
-	importObligations(p, l, "C10", "O6", func(o *Obligation) bool { return (o.Rule == "O3" || o.Rule == "O5") && strings.Contains(o.Key, "limiter.Queue") })
+	importObligations(p, l, "C10", "O6", func(o *Obligation) bool { return (o.Rule == "O3" || o.Rule == "O5") && (strings.Contains(o.Key, "limiter.Queue") || strings.Contains(o.Key, "limiter.queue")) })
 	l.Rule("O3", "constructors and pools select the order their name states; the default ordering is LIFO")
 	l.Rule("O4", "unblock (peek, acquire for the waiter, evict, deliver) is one exclusive critical section of the limiter mutex")
 	l.NotCovered = []string{"that arrival order equals push order (C10/O5a)", "scheduler effects on which woken caller proceeds first"}
